@@ -9,6 +9,7 @@ mod client_family;
 mod conv_family;
 mod fmt_family;
 mod io_family;
+mod macro_family;
 mod queue_family;
 mod rng;
 mod sink_family;
@@ -28,6 +29,7 @@ fn main() {
                 "fmt" => fmt_family::run_case(&args[3]),
                 "client" => client_family::run_case(&args[3]),
                 "queue" => queue_family::run_case(&args[3]),
+                "macros" => macro_family::run_case(&args[3]),
                 "sink" => sink_family::run_case(&args[3]),
                 _ => {
                     eprintln!("unknown family {}", family);
@@ -60,6 +62,7 @@ fn main() {
                 "fmt" => fmt_family::search(prop, seed, budget),
                 "client" => client_family::search(prop, seed, budget),
                 "queue" => queue_family::search(prop, seed, budget),
+                "macros" => macro_family::search(prop, seed, budget),
                 "sink" => sink_family::search(prop, seed, budget),
                 _ => {
                     eprintln!("unknown family {}", family);
